@@ -259,6 +259,8 @@ PROCESS_OUTPUT = dict(
         # the retransmission timer runs whenever a frame was sent
         implies(n_moved(old) > 0, self._receiver_ready_poll_handle is not None),
     ],
+    ensures_names=['moved-count'] + [f'{w}-{f}' for f in FIELDS for w in ('unacked', 'waiting')] + WF_NAMES + ['no-stall', 'wire-count', 'wire-tx-seq', 'wire-sar',
+                   'wire-data-count', 'wire-trace-lengths', 'wire-req-seq-final', 'wire-sdu-length', 'ack-piggybacked', 'ack-unchanged-if-nothing-sent', 'retransmission-timer-running'],
     modifies=PO_MOD,
 )
 
@@ -269,17 +271,20 @@ def po_inv(self, old, ghost, _i=None, pdu_to_send=None):
     `for pdu in islice(waiting, room): send(pdu)` followed by `waiting = waiting[room:]` (the waiting list is not
     touched inside the loop; the counter `_i` and the local `pdu_to_send` exist and `_i == n`), and
     `while waiting and <room>: send(waiting.pop(0))` (no counter: `_i` / `pdu_to_send` are optional parameters; the
-    waiting list is consumed as frames are sent).  The window bound is a clause of the invariant itself, so a loop
-    that lets one frame too many through fails `inv-preserved` whatever it looks like"""
+    waiting list is consumed as frames are sent; the window bound is then a clause of the invariant itself, so a loop
+    guard that lets one frame too many through fails `inv-preserved`).  In both shapes the postcondition
+    wf-unacked<=window (part of the representation invariant) is what every caller relies on"""
     a = self._last_acked_tx_seq
     consumed = _i is None
     n = len(self._tx_window) - len(old.self._tx_window) if consumed else _i
     return [
         0 <= n and n <= len(old.self._pending_pdus) and n == len(self._tx_window) - len(old.self._tx_window),
-        # Core Vol 3 Part A 8.6.?: never more unacknowledged I-frames than the peer's TxWindow, at every iteration
-        len(self._tx_window) <= self.peer_tx_window_size,
-        # (for-shape: pdu_to_send is not assigned in the loop: it keeps the value the code computed)
-        consumed or _i <= pdu_to_send,
+        # Core Vol 3 Part A 8.6: never more unacknowledged I-frames than the peer's TxWindow, at every iteration.
+        # (for-shape: the number of iterations is fixed before the loop; pdu_to_send is not assigned in the loop, it
+        #  keeps the value the code computed, and whether that value respects the window is decided by the
+        #  postcondition wf-unacked<=window: with the bound as an invariant clause too, the solvers answer `unknown`
+        #  instead of `sat` for a wrong room computation, and the postcondition is then entailed by the invariant)
+        len(self._tx_window) <= self.peer_tx_window_size if consumed else _i <= pdu_to_send,
         not blocked(self),
     ] + moved(self, old, n, consumed) + [
         numbered(col(self._tx_window, 'tx_seq'), a),
